@@ -122,12 +122,15 @@ CLAIMS['C04'] = dict(
     technique=TECH_B + ' (real-arithmetic mode with lemma schemas, function cuts)', design='3 (C04)')
 
 CLAIMS['C09'] = dict(
-    text='Bounding-zone stage of geometry construction as an inductive step: for arbitrary valid zones consistent with arbitrary regions at an arbitrary probe '
+    text='Solid primitives: the real build() of Box, Sphere, Cylinder, Ellipsoid, Cone and Parallelepiped run against a recording surface builder emit signed '
+         'surfaces whose intersection is exactly the documented solid, and their promised boxes are sound (open known findings F10, F11: Parallelepiped with '
+         'alpha != 0 / theta != 0). Bounding-zone stage of geometry construction as an inductive step: for arbitrary valid zones consistent with arbitrary regions at an arbitrary probe '
          'point, calc_intersection / calc_union / negate of zones, the box utilities and get_exterior_bbox keep "known inside" inside and the region inside the '
          'exterior box (every bound finite or infinite, null boxes, per negation case); SurfaceClipper / NegatedSurfaceClipper create sound leaf boxes (exact '
          'arithmetic). Found and fixed defect F4 (difference returned the hole as interior); open known findings F5 (mixed-negation union swapped; reaches runtime '
          'point location) and F6 (sphere interior box too large).',
-    note='Only the bounding-zone mechanism of the property is decided. Surface emission by the primitives, CSG simplification, soft de-duplication, box '
+    note='Decided: surface emission of six primitives, the bounding-zone mechanism, the clippers. Prism / GenPrism / InfWedge / Involute / hollow and poly '
+         'solids, CSG simplification, soft de-duplication, box '
          'transforms and UnitProto/InputBuilder/OrangeParams assembly (heap containers, variants) are outside the encodable reach; surface translation / '
          'transformation is under C12.6.',
     technique=TECH_B + ' (real-arithmetic mode with symbolic extended reals); ' + TECH_A + ' for the two volume-comparing zone cases', design='0.2 (C09)')
